@@ -59,10 +59,17 @@ def dec(e):
     raise TypeError(repr(e))
 
 
+def znum(n: int) -> str:
+    """Coq numeral; hexadecimal for big values (decimal parsing is quadratic, 5e-324 has a 1075-bit denominator)."""
+    if abs(n) < 10 ** 18:
+        return str(n)
+    return ("-" if n < 0 else "") + hex(abs(n))
+
+
 def coq_num(e) -> str:
     t, v = e[0], e[1]
     if t == "i":
-        return f"(PInt ({v})%Z)"
+        return f"(PInt ({znum(int(v))})%Z)"
     assert t == "f", e
     if v == "nan":
         return "NaN"
@@ -71,7 +78,7 @@ def coq_num(e) -> str:
     if v == "-inf":
         return "NInf"
     n, d = float.fromhex(v).as_integer_ratio()
-    return f"(PFlt (Qmake ({n})%Z ({d})%positive))"
+    return f"(PFlt (Qmake ({znum(n)})%Z ({znum(d)})%positive))"
 
 
 def coq_iro(e) -> str:
@@ -81,7 +88,7 @@ def coq_iro(e) -> str:
 
 
 def coq_zlist(e) -> str:
-    return "[" + "; ".join(f"({x[1]})%Z" for x in e[1]) + "]"
+    return "([" + "; ".join(f"({x[1]})%Z" for x in e[1]) + "] : list Z)"
 
 
 GK = {"none": "GraftNone", "sgd": "GraftSGD", "adagrad": "GraftAdaGrad", "rmsprop": "GraftRMSprop", "adam": "GraftAdam", "unsupported": "GraftUnsupported"}
@@ -315,15 +322,13 @@ def case_file(chunk) -> str:
     """chunk: list of (key, res).  Three result strings: agree, C17_checkb, agree_guard ('T' when no label is known)."""
     table: dict[str, str] = {}
 
-    def share(term: str) -> str:     # share long literals (5e-324 has a 324-digit denominator)
-        if len(term) < 40:
-            return term
+    def share(term: str) -> str:     # every literal is defined once per file (5e-324 has a 324-digit denominator)
         if term not in table:
             table[term] = f"v{len(table)}"
         return table[term]
 
-    defs, ag, chk, gd = [], [], [], []
-    for i, (key, res) in enumerate(chunk):
+    items = []
+    for key, res in chunk:
         parts = []
         for a, e in zip(AXES, key):
             if a in NUM_AXES:
@@ -331,23 +336,20 @@ def case_file(chunk) -> str:
             elif a == "iro":
                 parts.append(share(coq_iro(e)))
             elif a == "ignored":
-                parts.append(coq_zlist(e))
+                parts.append(share(coq_zlist(e)))
             else:
                 parts.append({"gkind": GK, "pc_kind": PK, "dist": DK}[a][e[1]])
-        defs.append(f"Definition c{i} : raw_cfg := mk_raw " + " ".join(parts) + ".")
-        if res[0] == "OK":
-            obs = f"(ObsOK {share(coq_num(res[1]))} {share(coq_num(res[2]))})"
-        else:
-            obs = coq_obs(res)
-        defs.append(f"Definition o{i} : observed := {obs}.")
-        ag.append(f"agree c{i} o{i}")
-        chk.append(f"C17_checkb c{i} o{i}")
-        gd.append(f"agree_guard c{i} {res[3]}" if res[0] == "ValueError" and res[3] else "true")
+        obs = f"(ObsOK {share(coq_num(res[1]))} {share(coq_num(res[2]))})" if res[0] == "OK" else coq_obs(res)
+        lab = f"(Some {res[3]})" if res[0] == "ValueError" and res[3] else "None"
+        items.append("(mk_raw " + " ".join(parts) + f", {obs}, {lab})")
     tdefs = [f"Definition {n} := {t}." for t, n in table.items()]
-    out = [HEADER, "\n".join(tdefs), "\n".join(defs)]
-    for nm, items in (("agrees", ag), ("checks", chk), ("guards", gd)):
-        out.append(f"Definition {nm} : list bool := [" + ";\n".join(items) + "].\nEval vm_compute in show_bools " + nm + ".")
-    return "\n".join(out) + "\n"
+    return "\n".join([
+        HEADER, "\n".join(tdefs),
+        "Definition cases : list (raw_cfg * observed * option guard) := [\n" + ";\n".join(items) + "].",
+        "Eval vm_compute in show_bools (map (fun c => agree (fst (fst c)) (snd (fst c))) cases).",
+        "Eval vm_compute in show_bools (map (fun c => C17_checkb (fst (fst c)) (snd (fst c))) cases).",
+        "Eval vm_compute in show_bools (map (fun c => match snd c with Some g => agree_guard (fst (fst c)) g | None => true end) cases).",
+    ]) + "\n"
 
 
 # ---------------------------------------------------------------------------------------------
